@@ -295,25 +295,39 @@ def chunk_kwargs(chunk, acc):
                 if not callable(handler):
                     continue
                 kwargs = {alias: True}
-            acc.states += 1
-            acc.transitions += 1
-            acc.case((kind, f[2]))
-            try:
-                blk = cls(**kwargs)
-                prof = cp.C2Profile()
-                path = PARENTS[kind]
-                obj, okind = blk, kind
-                for palias, kw, k in reversed(path[:-1]):
-                    parent = getattr(cp, KIND_CLASS_NAMES[k])()
-                    parent.set_config_block(path[path.index((palias, kw, k)) + 1][0], obj)
-                    obj = parent
-                prof.set_config_block(path[0][0], obj)
-                parsed = cp.C2Profile.from_text(RP.render(RP.sentence_tokens(wrap(kind, st))))
-                if prof.tree != parsed.tree or prof.as_text() != parsed.as_text() or prof.as_dict() != parsed.as_dict():
-                    acc.fail("C11/builder/kwargs", {"kind": "kwargs", "block": clsname, "kwargs": repr(kwargs)}, str(parsed.tree)[:300], str(prof.tree)[:300])
-            except Exception as e:  # noqa
-                acc.fail("C11/builder/kwargs-exception", {"kind": "kwargs", "block": clsname, "kwargs": repr(kwargs)}, "built", f"{type(e).__name__}: {str(e)[:200]}")
+            variants = [(kwargs, [st])]
+            if n == 2:
+                # longer pair lists, with a repeated first member, a repeated second member and a repeated whole pair:
+                # the block states every pair, in the order given
+                for pairs in ([("val", "v2"), ("val", "v3")], [("a", "1"), ("b", "2"), ("a", "3")], [("a", "1"), ("b", "1")], [("a", "1"), ("a", "1")]):
+                    variants.append(({alias: pairs}, [mk(f, ('"%s"' % a, '"%s"' % b)) for a, b in pairs]))
+            for kwargs, sts in variants:
+                run_kwargs(acc, cp, kind, cls, clsname, f, kwargs, sts)
     acc.sample({"builder": "HttpGetBlock(uri='val')", "equals": "http-get { set uri \"val\"; }"})
+
+
+def run_kwargs(acc, cp, kind, cls, clsname, f, kwargs, sts):
+    acc.states += 1
+    acc.transitions += 1
+    acc.case((kind, f[2], repr(kwargs)))
+    try:
+        blk = cls(**kwargs)
+        prof = cp.C2Profile()
+        path = PARENTS[kind]
+        obj, okind = blk, kind
+        for palias, kw, k in reversed(path[:-1]):
+            parent = getattr(cp, KIND_CLASS_NAMES[k])()
+            parent.set_config_block(path[path.index((palias, kw, k)) + 1][0], obj)
+            obj = parent
+        prof.set_config_block(path[0][0], obj)
+        body = list(sts)
+        for palias, kw, k in reversed(PARENTS[kind]):
+            body = [("b", palias, kw, None, k, body)]
+        parsed = cp.C2Profile.from_text(RP.render(RP.sentence_tokens(body)))
+        if prof.tree != parsed.tree or prof.as_text() != parsed.as_text() or prof.as_dict() != parsed.as_dict():
+            acc.fail("C11/builder/kwargs", {"kind": "kwargs", "block": clsname, "kwargs": repr(kwargs)}, str(parsed.tree)[:300], str(prof.tree)[:300])
+    except Exception as e:  # noqa
+        acc.fail("C11/builder/kwargs-exception", {"kind": "kwargs", "block": clsname, "kwargs": repr(kwargs)}, "built", f"{type(e).__name__}: {str(e)[:200]}")
 
 
 # ------------------------------------------------------------------------------------------------------------------
